@@ -75,6 +75,26 @@ Section Grid.
      (f(x+dx) - f(x))/dx^2, which is NOT zero on linear fields; the property claims exactness of
      Dxx, Dyy only in interior cells, which is what is proved above. *)
 
+  (* what the boundary second-derivative rows ARE: the one-sided first difference divided by the spacing once more, so on a
+     linear field they return slope/spacing (not 0) -- the exact content of the NB above, for every grid and boundary cell *)
+  Lemma Dxx_boundary_on_linear a b c : ix = 0 \/ ix = nx - 1 ->
+    (apply (op_row ODxx nx ny ix iy dx dy) (lin a b c) ix iy == b / dx)%Q.
+  Proof. intros [Hb|Hb]; unfold lin; solve_stencil. Qed.
+  Lemma Dyy_boundary_on_linear a b c : iy = 0 \/ iy = ny - 1 ->
+    (apply (op_row ODyy nx ny ix iy dx dy) (lin a b c) ix iy == c / dy)%Q.
+  Proof. intros [Hb|Hb]; unfold lin; solve_stencil. Qed.
+  (* interior rows are the centred differences, hence second-order: first derivatives and the mixed derivative are exact on
+     every quadratic (not only on linear / bilinear fields) away from the boundary they differentiate across *)
+  Lemma Dx_exact_quadratic_interior a b c d e g : 0 < ix < nx - 1 ->
+    (apply (op_row ODx nx ny ix iy dx dy) (quad a b c d e g) ix iy == b + 2 * d * xc x0 dx ix + e * yc y0 dy iy)%Q.
+  Proof. intros Hint. unfold quad. solve_stencil. Qed.
+  Lemma Dy_exact_quadratic_interior a b c d e g : 0 < iy < ny - 1 ->
+    (apply (op_row ODy nx ny ix iy dx dy) (quad a b c d e g) ix iy == c + e * xc x0 dx ix + 2 * g * yc y0 dy iy)%Q.
+  Proof. intros Hint. unfold quad. solve_stencil. Qed.
+  Lemma Dxy_exact_quadratic_interior a b c d e g : 0 < ix < nx - 1 -> 0 < iy < ny - 1 ->
+    (apply (op_row ODxy nx ny ix iy dx dy) (quad a b c d e g) ix iy == e)%Q.
+  Proof. intros Hint Hint'. unfold quad. solve_stencil. Qed.
+
   (* the row never refers to a cell outside the grid *)
   Lemma support_in_grid (o : opname) a b :
     ~ (op_row o nx ny ix iy dx dy a b == 0)%Q -> has nx ny ix iy a b = true.
